@@ -189,6 +189,16 @@ func runC15(c *Ctx) {
 						y, ok2 := h.Int(in.Y)
 						h.Assert("reader.decrement", "no unsigned wrap in lr.n - uint64(n)", ok1 && ok2 && h.ProvesLE(y.Sub(x)))
 					}
+				case *ssa.Return:
+					// an exit after the delegated Read that does not hand (n, err) through is
+					// allowed only for an impossible count (n < 0); (0, nil) and (0, io.EOF)
+					// results of the wrapped reader must pass through unchanged
+					if core.Dominates(call, in) {
+						if ex, isEx := in.Results[0].(*ssa.Extract); !isEx || ex.Tuple != ssa.Value(call) {
+							n, ok := h.Int(extractOf(call, 0))
+							h.Assert("reader.passthrough", "a replaced result only for a negative count from r.Read", ok && h.ProvesLE(n.AddK(1)))
+						}
+					}
 				}
 			}
 			a.Entry(rd, nil)
@@ -249,6 +259,9 @@ func runC15(c *Ctx) {
 						lim := h.Field(w, limIdx, "limit", true)
 						off := h.Field(w, offIdx, "offset", true)
 						h.Assert("writer.forward-bound", "len(b') <= w.limit - w.offset at w.Write(b')", ok && h.ProvesLE(ln.Add(off).Sub(lim)))
+						lb, okB := h.Len(b)
+						h.Assert("writer.forward-exact", "len(b') == min(len(b), w.limit - w.offset): not fewer bytes than the budget allows", ok && okB &&
+							(h.ProvesEQ(ln.Sub(lb)) || h.ProvesEQ(ln.Add(off).Sub(lim))))
 					}
 				case *ssa.Store:
 					if in == upd {
@@ -263,6 +276,11 @@ func runC15(c *Ctx) {
 					r0, ok := h.Int(in.Results[0])
 					lb, okB := h.Len(b)
 					h.Assert("writer.reports-len", "first result == len(b)", ok && okB && h.ProvesEQ(r0.Sub(lb)))
+					if !core.Dominates(call, in) {
+						lim := h.Field(w, limIdx, "limit", true)
+						off := h.Field(w, offIdx, "offset", true)
+						h.Assert("writer.forward-exact", "a return that skips w.Write happens only when no budget is left (limit == offset)", h.ProvesEQ(lim.Sub(off)))
+					}
 				}
 			}
 			a.Entry(wr, func(h *lincon.Handle) {
